@@ -108,6 +108,7 @@ type World struct {
 	unsupporteds map[string]int
 	mergeAbortWhy map[string]int
 	blocked map[string]int
+	cuts map[string]int
 	reached     map[string]bool
 	stats       Stats
 	fnSeen      map[string]bool
@@ -175,6 +176,7 @@ type Ctx struct {
 	wg       map[*Value]int64
 	chanUndo []*Chan
 	allocLimit *Term
+	cur      *Frame
 }
 
 func (c *Ctx) hasSymbolic(args []Value) bool {
@@ -471,6 +473,15 @@ func (c *Ctx) assume(fr *Frame, cond *Term, why string) {
 	}
 	if r := c.checkSat(cond); r == "unsat" {
 		panic(pathEnd{"assume infeasible: " + why})
+	}
+	if strings.Contains(why, "engine bound") {
+		// a stated cut: if inputs beyond the bound are feasible here they are NOT followed
+		if r := c.checkSat(c.tb.Not(cond)); r != "unsat" {
+			fn, site := c.site(fr)
+			c.w.mu.Lock()
+			c.w.cuts[why+" @ "+fn+" : "+site]++
+			c.w.mu.Unlock()
+		}
 	}
 	c.assertPC(cond)
 }
@@ -1033,7 +1044,7 @@ func (c *Ctx) runOne(prefix []Decision) (reason string) {
 			case unsupportedErr:
 				reason = "unsupported"
 				c.w.mu.Lock()
-				c.w.unsupporteds[e.msg]++
+				c.w.unsupporteds[e.msg+" @ "+strings.Join(c.stack(c.cur), " < ")]++
 				c.w.mu.Unlock()
 			case mergeAbort:
 				reason = "unsupported"
@@ -1158,6 +1169,7 @@ func (w *World) explore() {
 	w.unsupporteds = map[string]int{}
 	w.mergeAbortWhy = map[string]int{}
 	w.blocked = map[string]int{}
+	w.cuts = map[string]int{}
 	w.reached = map[string]bool{}
 	w.fnSeen = map[string]bool{}
 	w.stats = Stats{PathsEnded: map[string]int{}}
